@@ -247,6 +247,7 @@ def r1_table(ctx):
               all(b["locals"][i]["s"].endswith("[u8]") for i in (1, 2))}
     outs = ctx.px(cond, inline=lambda c, d: bool(c.get("res_local")) and c.get("res_path") not in cmpfns, key="all-local", max_depth=6)
     summ = loop_summaries(ctx, outs, "C04.R3")
+    ctx._c04_summ = summ
     ctx.floor("C04.R3", len(summ), 2, what="tag-list loops with a recognised monotone flag")
     # R2: comparator kinds
     for lv, s in summ.items():
